@@ -1000,7 +1000,8 @@ radius_pkt_attr_alloc_raw(rad_pkt_hdr_p pkt, size_t pkt_buf_size, size_t *pkt_si
 	if (NULL != pkt_size_ret) {
 		(*pkt_size_ret) = pkt_size;
 	}
-	if (pkt_size > pkt_buf_size)
+	if (pkt_size > pkt_buf_size ||
+	    pkt_size > RADIUS_PKT_MAX_SIZE) /* radius_pkt_chk() limit, 16 bit length field. */
 		return (EOVERFLOW);
 	attr->type = type;
 	attr->len = (2 + len);
